@@ -15,7 +15,7 @@ from vlib.mc import enum as E
 PROPERTY = 'C15'
 LEVEL = 'exploration'
 ENGINE = 'C'
-TECHNIQUE = ('bounded-exhaustive enumeration of MAC x prefix, host x port x '
+TECHNIQUE = ('stateless bounded model checking: complete enumeration of MAC x prefix, host x port x '
              'default and URL component products against stdlib references and '
              'round-trip identities')
 LEVEL_TEXT = ('Every MAC of the boundary family (all-zero, all-ones, each '
